@@ -301,9 +301,9 @@ type result struct {
 	OpenErr   string   `json:"open_err,omitempty"`
 	SumBefore string   `json:"sum_before"`
 	SumAfter  string   `json:"sum_after"`
-	Side      []string `json:"side_files"`        // -wal/-shm/-journal present after the open
-	Use       []string `json:"use,omitempty"`     // problems found when using the opened store
-	Reopen    string   `json:"reopen,omitempty"`  // error of the second New
+	Side      []string `json:"side_files"`       // -wal/-shm/-journal present after the open
+	Use       []string `json:"use,omitempty"`    // problems found when using the opened store
+	Reopen    string   `json:"reopen,omitempty"` // error of the second New
 	Panic     string   `json:"panic,omitempty"`
 }
 
